@@ -852,7 +852,8 @@ func (r *run) keySource(src, which string) (*types.NodeCredentials, string) {
 func (r *run) rotate(op map[string]any, ln *Line) {
 	w := r.w
 	r.setOrder(strs(op, "order"))
-	inner, err := w.BuildFetch(world.FetchSpec{K: s(op, "k2"), E: s(op, "e2"), Nonce: s(op, "n2"), PrevK: s(op, "k")})
+	// iid: the inner signed bundle carries an id field that is not the key id of its certificate key
+	inner, err := w.BuildFetch(world.FetchSpec{K: s(op, "k2"), E: s(op, "e2"), Nonce: s(op, "n2"), PrevK: s(op, "k"), WrongId: b(op, "iid")})
 	if err != nil {
 		panic(err)
 	}
